@@ -193,6 +193,10 @@ func evalRat(rel string, e ast.Expr) *big.Rat {
 			if b.Sign() == 0 {
 				die("division by zero at %s", pos(e))
 			}
+			if intConstExpr(rel, x.X) && intConstExpr(rel, x.Y) {
+				// two integer constants: Go divides them as integers (8 / 5 is 1, 8.0 / 5.0 is 1.6)
+				return new(big.Rat).SetInt(new(big.Int).Quo(a.Num(), b.Num()))
+			}
 			q := new(big.Rat).Quo(a, b)
 			return q
 		case token.SHL:
@@ -215,6 +219,30 @@ func evalRat(rel string, e ast.Expr) *big.Rat {
 	}
 	die("cannot evaluate numeric expression %q at %s", exprText(e), pos(e))
 	return nil
+}
+
+// intConstExpr: the expression is built from integer literals, character literals and named integer constants only (no
+// floating-point literal, no conversion), so that Go's constant arithmetic on it is integer arithmetic.
+func intConstExpr(rel string, e ast.Expr) bool {
+	switch x := e.(type) {
+	case *ast.BasicLit:
+		return x.Kind == token.INT || x.Kind == token.CHAR
+	case *ast.ParenExpr:
+		return intConstExpr(rel, x.X)
+	case *ast.UnaryExpr:
+		return intConstExpr(rel, x.X)
+	case *ast.BinaryExpr:
+		return intConstExpr(rel, x.X) && intConstExpr(rel, x.Y)
+	case *ast.Ident:
+		return intConstExpr(rel, findValue(rel, x.Name))
+	case *ast.SelectorExpr:
+		if id, ok := x.X.(*ast.Ident); ok {
+			if dir, ok := knownPkgs[id.Name]; ok {
+				return intConstExpr(dir, findValue(dir, x.Sel.Name))
+			}
+		}
+	}
+	return false
 }
 
 func evalInt(rel string, e ast.Expr) *big.Int {
